@@ -46,6 +46,7 @@ from ampform.helicity.naming import (
     HelicityAmplitudeNameGenerator,
     NameGenerator,
     collect_spin_projections,
+    create_amplitude_base,
     create_amplitude_symbol,
     generate_transition_label,
     get_helicity_angle_symbols,
@@ -474,32 +475,37 @@ class HelicityAmplitudeBuilder:
 
     def __register_amplitudes(self, transition_group: list[StateTransition]) -> None:
         transition_by_topology = group_by_topology(transition_group)
-        expression = sum(
-            self.__formulate_topology_amplitude(transitions)
-            for transitions in transition_by_topology.values()
-        )
+        # identical final-state particles with unequal helicities: the graphs of one group
+        # can have different spin projections per state ID. Only graphs with the same
+        # projections per state ID are summed coherently.
+        expressions: dict[tuple[sp.Rational, ...], sp.Expr] = {}
+        for transitions in transition_by_topology.values():
+            topology_amplitudes = self.__formulate_topology_amplitude(transitions)
+            for helicities, expression in topology_amplitudes.items():
+                expressions[helicities] = expressions.get(helicities, 0) + expression
         first_transition = transition_group[0]
         graph_group_label = generate_transition_label(first_transition)
         component_name = f"I_{{{graph_group_label}}}"
-        self.__ingredients.components[component_name] = sp.Abs(expression) ** 2
+        self.__ingredients.components[component_name] = sum(
+            sp.Abs(expression) ** 2 for expression in expressions.values()
+        )
 
     def __formulate_topology_amplitude(
         self, transitions: Sequence[StateTransition]
-    ) -> sp.Expr:
-        sequential_expressions: list[sp.Expr] = []
+    ) -> dict[tuple[sp.Rational, ...], sp.Expr]:
+        base = create_amplitude_base(transitions[0].topology)
+        expressions: dict[tuple[sp.Rational, ...], sp.Expr] = {}
         for transition in transitions:
             sequential_graphs = _perform_combinatorics(transition)
             for graph in sequential_graphs:
                 first_transition = _freeze(graph)
                 self.__adapter.register_topology(first_transition.topology)
                 expression = self.__formulate_sequential_decay(first_transition)
-                sequential_expressions.append(expression)
-
-        first_transition = transitions[0]
-        symbol = create_amplitude_symbol(first_transition)
-        expression = sum(sequential_expressions)  # type: ignore[assignment]
-        self.__ingredients.amplitudes[symbol] = expression
-        return expression
+                helicities = create_amplitude_symbol(first_transition).indices
+                expressions[helicities] = expressions.get(helicities, 0) + expression
+        for helicities, expression in expressions.items():
+            self.__ingredients.amplitudes[base[helicities]] = expression
+        return expressions
 
     def __formulate_sequential_decay(self, transition: StateTransition) -> sp.Expr:
         partial_decays: list[sp.Expr] = [
